@@ -1896,3 +1896,81 @@ func ruleR2_10(w *World, r *Report) {
 		r.Unk("R2.10", "degree copies", "-", "no loop carrying a local copy of Cardinality() in a method of Problem")
 	}
 }
+
+// ---------- R5.8: an Unsat answer whose returned value is discarded has been recorded in the solver ----------
+
+func ruleR5_8(w *World, r *Report) {
+	r.Rule("R5.8", "where a call returning a solver.Status is made for its effect only (the result is discarded), every path of the callee that returns Unsat has stored Unsat into Solver.status first: Unsat must never be lost, it ends the enumeration loops", 2)
+	unsat, _ := w.statusConst("Unsat")
+	// recordsUnsat: the value returned at ret is Unsat and the function stored Unsat into the status before
+	var returnsUnrecorded func(fn *ssa.Function, depth int) []string
+	returnsUnrecorded = func(fn *ssa.Function, depth int) []string {
+		var bad []string
+		if depth > 3 {
+			return nil
+		}
+		allInstrs(fn, func(ins ssa.Instruction) {
+			ret, ok := ins.(*ssa.Return)
+			if !ok || len(ret.Results) != 1 {
+				return
+			}
+			switch x := ret.Results[0].(type) {
+			case *ssa.Const:
+				if k, isK := constInt(x); isK && k == unsat {
+					stored := false
+					for _, st := range storesToField(fn, "solver.Solver", "status") {
+						if v, isV := constInt(st.Val); isV && v == unsat && instrDominates(st, ret) {
+							stored = true
+						}
+					}
+					if !stored {
+						bad = append(bad, w.FuncName(fn)+" returns Unsat at "+w.InstrPos(ret)+" without having stored it")
+					}
+				}
+			case *ssa.Call:
+				for _, c := range w.Callees[x] {
+					if typeShort(c.Signature.Results().At(0).Type()) == "solver.Status" && w.PkgName(c) == "solver" {
+						bad = append(bad, returnsUnrecorded(c, depth+1)...)
+					}
+				}
+			}
+		})
+		return bad
+	}
+	n := 0
+	for _, fn := range w.LibFns() {
+		if w.PkgName(fn) != "solver" {
+			continue
+		}
+		k := 0
+		for _, ci := range callsIn(fn) {
+			c, ok := ci.(*ssa.Call)
+			if !ok || typeShort(c.Type()) != "solver.Status" || len(*c.Referrers()) != 0 {
+				continue
+			}
+			var bad []string
+			any := false
+			for _, callee := range w.Callees[c] {
+				if w.PkgName(callee) != "solver" || len(callee.Blocks) == 0 {
+					continue
+				}
+				any = true
+				bad = append(bad, returnsUnrecorded(callee, 0)...)
+			}
+			if !any {
+				continue
+			}
+			k++
+			n++
+			key := fmt.Sprintf("%s discarded status #%d", w.FuncName(fn), k)
+			if len(bad) > 0 {
+				r.Bad("R5.8", key, w.InstrPos(c), "the result of the call is discarded and "+strings.Join(dedupe(bad), "; ")+": the loop that made the call goes on searching although the problem (with the models blocked so far) is exhausted, and counts or delivers assignments again")
+			} else {
+				r.OK("R5.8", key, w.InstrPos(c), "every Unsat return of the callee is recorded in the status before")
+			}
+		}
+	}
+	if n == 0 {
+		r.Unk("R5.8", "discarded statuses", "-", "no call with a discarded solver.Status result")
+	}
+}
